@@ -134,6 +134,34 @@ def build_chain(ops, rec):
     return t, bufs
 
 
+class NoTermination(BaseException):
+    pass
+
+
+class Watchdog(object):
+    """CPU-time limit for one run of the code under test (a filter that does not terminate is a
+    failure of the property, not of the infrastructure)"""
+    LIMIT = 4.0
+
+    def _fire(self, *a):
+        raise NoTermination()
+
+    def __enter__(self):
+        import signal, threading
+        self.on = threading.current_thread() is threading.main_thread()
+        if self.on:
+            self.old = signal.signal(signal.SIGVTALRM, self._fire)
+            signal.setitimer(signal.ITIMER_VIRTUAL, self.LIMIT)
+        return self
+
+    def __exit__(self, *a):
+        import signal
+        if self.on:
+            signal.setitimer(signal.ITIMER_VIRTUAL, 0)
+            signal.signal(signal.SIGVTALRM, self.old)
+        return False
+
+
 def jmark(m):
     return None if m is None else str(m)
 
@@ -143,14 +171,20 @@ def run_real(doc, ops):
     rec = {}
     out = {'status': 'ok', 'marked': [], 'err': None, 'bufs': {}, 'rec': rec}
     events = G.to_genshi(G.flatten(doc))
+    t, bufs = build_chain(ops, rec)       # a malformed case raises here: not an outcome of the code under test
     try:
-        t, bufs = build_chain(ops, rec)
-        for mark, ev in t(events, keep_marks=True):
-            out['marked'].append([jmark(mark), G.from_genshi_event(ev)])
+        with Watchdog():
+            for mark, ev in t(events, keep_marks=True):
+                out['marked'].append([jmark(mark), G.from_genshi_event(ev)])
     except Exception as e:  # noqa
         out['status'] = 'err'
         out['err'] = type(e).__name__
-        bufs = locals().get('bufs', {})
+    except NoTermination:
+        out['status'] = 'err'
+        out['err'] = 'NoTermination'
+        out['marked'] = out['marked'][:50]
+        for b in bufs.values():
+            b.reset()                 # may hold millions of events
     for i, b in sorted(bufs.items()):
         out['bufs'][i] = G.from_genshi(list(b))
     return out
@@ -483,7 +517,135 @@ def oracle_other(case):
     return None
 
 
+class Malformed(Exception):
+    pass
+
+
+def valid_forest(nodes):
+    if not isinstance(nodes, list):
+        return False
+    for n in nodes:
+        if not isinstance(n, list) or not n:
+            return False
+        k = n[0]
+        if k == 'e':
+            if len(n) != 4 or not (isinstance(n[1], list) and len(n[1]) == 2 and all(isinstance(x, str) for x in n[1])):
+                return False
+            if not n[1][1]:
+                return False
+            if not isinstance(n[2], list):
+                return False
+            for a in n[2]:
+                if not (isinstance(a, list) and len(a) == 2 and isinstance(a[0], list) and len(a[0]) == 2
+                        and all(isinstance(x, str) for x in a[0]) and a[0][1] and isinstance(a[1], str)):
+                    return False
+            if len(set(tuple(a[0]) for a in n[2])) != len(n[2]):
+                return False
+            if not valid_forest(n[3]):
+                return False
+        elif k in ('t', 'c'):
+            if len(n) != 2 or not isinstance(n[1], str):
+                return False
+        elif k == 'p':
+            if len(n) != 3 or not isinstance(n[1], str) or not n[1] or not isinstance(n[2], str):
+                return False
+        else:
+            return False
+    return True
+
+
+def valid_path(p):
+    try:
+        if not p['alts']:
+            return False
+        for alt in p['alts']:
+            if alt['lead'] not in ('', '//', './/', '.'):
+                return False
+            if alt['lead'] == '.' and alt['steps']:
+                return False
+            if alt['lead'] != '.' and not alt['steps']:
+                return False
+            for st in alt['steps']:
+                if st['sep'] not in ('/', '//') or not st['test'] or not isinstance(st['test'], str):
+                    return False
+                if st['test'] not in ('*', 'text()', 'comment()', 'node()') and not st['test'].isalnum():
+                    return False
+                for pr in st['preds']:
+                    if pr[0] not in ('has', 'eq', 'pos') or len(pr) != (3 if pr[0] == 'eq' else 2):
+                        return False
+                    if pr[0] == 'pos' and not (isinstance(pr[1], int) and pr[1] >= 1):
+                        return False
+                    if pr[0] != 'pos' and not (isinstance(pr[1], str) and pr[1].isalnum()):
+                        return False
+            if alt.get('attr') is not None and not (alt['attr'] == '*' or (isinstance(alt['attr'], str) and alt['attr'].isalnum())):
+                return False
+        return True
+    except (KeyError, TypeError, IndexError):
+        return False
+
+
+ARITY = {'select': 2, 'remove': 1, 'unwrap': 1, 'empty': 1, 'invert': 1, 'end': 1, 'buffer': 1, 'wrap': 3,
+         'replace': 2, 'before': 2, 'after': 2, 'prepend': 2, 'append': 2, 'rename': 2, 'attr': 3, 'copy': 3,
+         'cut': 3, 'map': 2, 'substitute': 4, 'filter': 2}
+
+
+def valid_case(case):
+    """shape check: shrinking may produce cases that are not inputs of the property at all"""
+    try:
+        k = case.get('kind')
+        if not valid_forest(case.get('doc')):
+            return False
+        if k == 'chain':
+            ops = case['ops']
+            if not ops or ops[0][0] != 'select':
+                return False
+            for op in ops:
+                if ARITY.get(op[0]) != len(op):
+                    return False
+                if op[0] == 'select' and not valid_path(op[1]):
+                    return False
+                if op[0] in INJ:
+                    c = op[1]
+                    if c[0] == 's':
+                        if not isinstance(c[1], str):
+                            return False
+                    elif c[0] == 'ev':
+                        if not valid_forest(c[1]):
+                            return False
+                    elif c[0] == 'buf':
+                        if not isinstance(c[1], int):
+                            return False
+                    else:
+                        return False
+                if op[0] == 'wrap' and not (isinstance(op[1], str) and op[1].isalnum() and
+                                            all(isinstance(x, list) and len(x) == 2 and x[0].isalnum() for x in op[2])):
+                    return False
+                if op[0] == 'rename' and not (isinstance(op[1], str) and op[1].isalnum()):
+                    return False
+                if op[0] == 'attr' and not (isinstance(op[1], str) and op[1].isalnum() and
+                                            (op[2] is None or isinstance(op[2], str))):
+                    return False
+                if op[0] in ('copy', 'cut') and not (isinstance(op[1], int) and isinstance(op[2], bool)):
+                    return False
+                if op[0] == 'substitute' and not (isinstance(op[1], str) and op[1].isalnum() and
+                                                  isinstance(op[2], str) and '\\' not in op[2] and isinstance(op[3], int)):
+                    return False
+            return True
+        if k == 'form':
+            for kv in case['data']:
+                if len(kv) != 2 or not isinstance(kv[0], str) or not kv[0]:
+                    return False
+            return isinstance(case.get('passwords', False), bool)
+        if k == 'other':
+            return case.get('filter') in ('sanitizer', 'translator', 'empty', 'whitespace', 'nsflat', 'doctype')
+        return False
+    except (KeyError, TypeError, IndexError, AttributeError):
+        return False
+
+
 def oracle_case(case):
+    if not valid_case(case):
+        raise Malformed()
     k = case.get('kind')
     if k == 'chain':
         return oracle_chain(case)
@@ -672,21 +834,18 @@ def gen_cases(rng, n):
     return cases
 
 
-GOOD_ONLY = ('empty', 'remove', 'unwrap', 'wrap', 'replace', 'before', 'after', 'prepend', 'append', 'rename',
-             'copy', 'cut')
+DIRTY_EXCLUDED = ('remove', 'replace', 'wrap', 'cut', 'copy', 'filter')
 
 
 def in_theorem_class(ops):
-    """mirror of `Admissible true ops` (Genshi/Lemmas/TfChain.lean): the chains covered by
+    """mirror of `Admissible true ops` (Genshi/Lemmas/TfChains.lean): the chains covered by
     chain_wellnested_partial"""
     good = True
     for op in ops:
         n = op[0]
         if n == 'filter':
             return False
-        if n in INJ and op[1][0] == 'buf':
-            return False
-        if not good and n in GOOD_ONLY:
+        if not good and n in DIRTY_EXCLUDED:
             return False
         if n in ('select', 'end'):
             good = True
@@ -759,7 +918,7 @@ def shard(arg):
 def run(ctx):
     res = Result()
     nsh = 16
-    per = ctx.n(500, 16000)
+    per = ctx.n(1200, 14000)
     for r in pmap('harness.props.c20', 'shard', [(ctx.seed, i, per) for i in range(nsh)]):
         res.merge(r)
     res.rule = ('chains: distinct (operation names, path strings, set of marks in the final marked stream, its length) with at '
@@ -789,5 +948,5 @@ def search(ctx, res, broken):
 def replay(ctx, case):
     try:
         return oracle_case(case)
-    except (ValueError, KeyError, IndexError, TypeError, AttributeError):
+    except Malformed:
         return None
